@@ -8,14 +8,20 @@ import IbModel.Generated.Tables
 /-!
 Driver handler for C11 (checkpointing engines).
 
-`CKPT pol=<barrier|every:n|time:s|hybrid:<T|F>:s> max=<none|n> rec=<T|F> first=<none|full|crash:j>
+`CKPT dir=<ok|file> pol=<barrier|every:n|time:s|hybrid:<T|F>:s> max=<none|n> rec=<T|F>
+      first=<none|full|crash:j|crashb:j>
       mut=<none|trunc:o|flip:i:b|set:hex> add=<names|-> pre=<dir|-> mode=<seq|par:n> canon=<..> src <rows> ; steps`
 
-* `pre`  : the directory before anything runs: comma-separated `<name>:<hex content>`; a name is either hex bytes or
-           `own.<stamp>` = `checkpoint_<this run's pipeline id>_<stamp>.bin`;
-* `first`: an earlier run of the SAME pipeline: `full` = runs to its end, `crash:j` = step `j` of the program (a
-           `map ident`) is armed and panics, i.e. the process is killed while the chain node that contains this op
-           executes; `none` = no earlier run;
+* `dir`  : the configured checkpoint directory: `ok` = a directory that can be created and listed, `file` = the path
+           is a regular file (`create_dir_all` fails: `Env.dirCreatable = false`);
+* `pre`  : the directory before anything runs: comma-separated `<name>:<hex content>` or `<name>:DIR` (the entry is a
+           sub-directory); a name is either hex bytes or `own.<stamp>` = `checkpoint_<this run's pipeline id>_<stamp>.bin`;
+* `first`: an earlier run of the SAME pipeline: `full` = runs to its end, `crash:j` = step `j` of the program (an
+           identity step: `map ident` or `filter tt`) is armed and panics, i.e. the process is killed while the chain
+           node that contains this op executes; `crashb:j` = step `j` is such an identity step but NOT armed — the
+           closure that panics is the user combiner of the barrier step that follows it, i.e. the process is killed
+           inside the barrier node right after the node holding step `j` (or inside the CoGroup node, when a later
+           join has swallowed both into its left sub-plan); `none` = no earlier run;
 * `mut`  : what then happens to the newest own checkpoint file (`trunc:o` keep the first `o` bytes, `flip:i:b` flip
            bit `b` of byte `i`, `set:hex` overwrite); `add`: foreign file names (hex) created afterwards;
 * then the run proper (`rec` = `auto_recover`).
@@ -37,20 +43,30 @@ def progressF (idx total : Nat) : UInt8 := (Float.ofNat idx / Float.ofNat total 
 
 def baseNs : Nat := 1700000000000 * 1000000
 
-def envAt (startNs : Nat) : Env :=
-  { H := H, dec := D12.cfgNow, clock := fun k => startNs + k * 1000000, progress := progressF }
+def envAt (startNs : Nat) (dirOk : Bool) (dirs : List Name) : Env :=
+  { H := H, dec := D12.cfgNow, clock := fun k => startNs + k * 1000000, progress := progressF,
+    dirCreatable := dirOk, isDir := fun n => dirs.contains n }
 
-def env1 : Env := envAt baseNs
-def env2 : Env := envAt (baseNs + 3600 * 1000000000)
+def ns1 : Nat := baseNs
+def ns2 : Nat := baseNs + 3600 * 1000000000
 
 /-! the chain, with the crash marker labelled so that it can be found after planning -/
 
-def crashOp : DynOp Part := { mapOp Fn.ident.eval with label := "crash" }
+/-- the node a single stateless builder call appends, with its operator labelled -/
+def crashNode (s : Step) : Option (Node Part) :=
+  match Step.apply [] s with
+  | [.stateless [op]] => some (.stateless [{ op with label := "crash" }])
+  | _ => none
 
-def chainOf (src : List Val) (steps : List Step) (marker : Option Nat) : List (Node Part) :=
+def chainOf (src : List Val) (steps : List Step) (marker : Option Nat) : Option (List (Node Part)) :=
   match marker with
-  | none => optimise (litChain src steps)
-  | some j => optimise (applySteps (applySteps [vecSource src] (steps.take j) ++ [st crashOp]) (steps.drop (j + 1)))
+  | none => some (optimise (litChain src steps))
+  | some j =>
+    match steps[j]? with
+    | none => none
+    | some s =>
+      (crashNode s).map fun cn =>
+        optimise (applySteps (applySteps [vecSource src] (steps.take j) ++ [cn]) (steps.drop (j + 1)))
 
 partial def holdsCrash : Node Part → Bool
   | .stateless ops => ops.any (fun o => o.label == "crash")
@@ -63,12 +79,28 @@ def crashIndex (chain : List (Node Part)) : Option Nat :=
 
 /-! parsing -/
 
-def first? (s : String) : Option (Option (Option Nat)) :=   -- none = no first run; some none = full; some (some j) = crash
-  if s == "none" then some none
-  else if s == "full" then some (some none)
+inductive First | none | full | crash (j : Nat) | crashBarrier (j : Nat)
+
+def first? (s : String) : Option First :=
+  if s == "none" then some .none
+  else if s == "full" then some .full
   else match s.splitOn ":" with
-    | ["crash", j] => (parseNat? j).map (fun j => some (some j))
-    | _ => none
+    | ["crash", j] => (parseNat? j).map .crash
+    | ["crashb", j] => (parseNat? j).map .crashBarrier
+    | _ => Option.none
+
+/-- number of chain nodes that have COMPLETED when the process is killed -/
+def crashPoint (chain : List (Node Part)) (barrier : Bool) : Option Nat :=
+  match crashIndex chain with
+  | Option.none => Option.none
+  | some i =>
+    if !barrier then some i
+    else match chain[i]? with
+      | some (.coGroup ..) => some i                 -- marker and barrier both inside this join's sub-plan
+      | _ =>
+        match chain[i + 1]? with
+        | some n => if isBarrier n then some (i + 1) else Option.none
+        | Option.none => Option.none
 
 inductive Mut | none | trunc (o : Nat) | flip (i b : Nat) | set (bytes : Bytes)
 
@@ -90,17 +122,22 @@ def applyMut (m : Mut) (c : Bytes) : Bytes :=
   | .flip i b => (c.zipIdx).map (fun p => if p.2 == i then p.1 ^^^ (UInt8.ofNat (1 <<< b)) else p.1)
   | .set bytes => bytes
 
-/-- one `pre` entry: `<name>:<hex>` -/
-def preEntry? (pid : Bytes) (s : String) : Option (Name × Bytes) :=
+/-- one `pre` entry: `<name>:<hex>` (regular file) or `<name>:DIR` (sub-directory); the flag says which -/
+def preEntry? (pid : Bytes) (s : String) : Option ((Name × Bytes) × Bool) :=
   match s.splitOn ":" with
   | [n, c] => do
-    let content ← if c.isEmpty then some [] else D12.hex? c
     let name ← (if n.startsWith "own." then (parseNat? (n.drop 4).toString).map (fileNameOf pid) else D12.hex? n)
-    pure (name, content)
+    if c == "DIR" then pure ((name, []), true)
+    else
+      let content ← if c.isEmpty then some [] else D12.hex? c
+      pure ((name, content), false)
   | _ => none
 
-def pre? (pid : Bytes) (s : String) : Option FS :=
-  if s == "-" then some [] else (s.splitOn ",").mapM (preEntry? pid)
+/-- the initial directory and the names in it that are sub-directories -/
+def pre? (pid : Bytes) (s : String) : Option (FS × List Name) :=
+  if s == "-" then some ([], [])
+  else ((s.splitOn ",").mapM (preEntry? pid)).map fun es =>
+    (es.map (·.1), (es.filter (·.2)).map (·.1.1))
 
 /-! rendering -/
 
@@ -111,6 +148,13 @@ def renderOutcome (canon : String) (o : Outcome (M Part)) : String :=
   | .finished r => renderRes canon r
   | .died .allocFail => "ABORT"
   | .died _ => "PANIC"
+  | .setupFailed .createDir => "ERR ckpt-create-dir"
+  | .setupFailed .readDir => "ERR ckpt-read-dir"
+
+def isSetupFailure (o : Outcome (M Part)) : Bool :=
+  match o with
+  | .setupFailed _ => true
+  | _ => false
 
 def errName (e : DecErr) : String := ((D12.errClass e).drop 4).toString
 
@@ -127,12 +171,12 @@ def lastFields (s : State) : String :=
   s!"idx:{s.completedNodeIndex},pc:{s.partitionCount},em:{D12.hexOf s.execMode},tn:{s.metadata.totalNodes}," ++
   s!"lnt:{D12.hexOf s.metadata.lastNodeType},pp:{s.metadata.progressPercent.toNat},pid:{D12.hexOf s.pipelineId}"
 
-/-- `own=<0|+> last=<…>` of a directory -/
-def ownStr (pid : Bytes) (fs : FS) : String :=
+/-- `own=<0|+> last=<…>` of a directory (`own`: is there an ENTRY with a well-formed checkpoint name of this id) -/
+def ownStr (isDir : Name → Bool) (pid : Bytes) (fs : FS) : String :=
   match latest true pid fs with
   | none => "own=0 last=-"
   | some name =>
-    match Checkpoint.read fs name with
+    match readD isDir fs name with
     | none => "own=+ last=bad:io"
     | some bytes =>
       match load H D12.cfgNow bytes with
@@ -165,8 +209,9 @@ def pidOf (env : Env) (chain : List (Node Part)) (par : Option Nat) : Bytes :=
   | none => seqPid env chain.length
   | some n => parPid env chain.length n
 
-def mutateNewest (pid : Bytes) (m : Mut) (fs : FS) : FS :=
-  match latest true pid fs with
+/-- the harness damages the newest own-named REGULAR file -/
+def mutateNewest (isDir : Name → Bool) (pid : Bytes) (m : Mut) (fs : FS) : FS :=
+  match latest true pid (fs.filter (fun f => !isDir f.1)) with
   | none => fs
   | some name => fs.map (fun f => if f.1 == name then (f.1, applyMut m f.2) else f)
 
@@ -174,14 +219,15 @@ def addForeign (fs : FS) (ns : List Name) : FS := ns.foldl (fun acc n => write a
 
 def handle (toks : List String) : String :=
   match toks with
-  | tpol :: tmax :: trec :: tfirst :: tmut :: tadd :: tpre :: rest =>
-    match kv? "pol" [tpol], (kv? "max" [tmax]) >>= D12.max?, (kv? "rec" [trec]) >>= D12.bool?,
+  | tdir :: tpol :: tmax :: trec :: tfirst :: tmut :: tadd :: tpre :: rest =>
+    match kv? "dir" [tdir], kv? "pol" [tpol], (kv? "max" [tmax]) >>= D12.max?, (kv? "rec" [trec]) >>= D12.bool?,
           (kv? "first" [tfirst]) >>= first?, (kv? "mut" [tmut]) >>= mut?, (kv? "add" [tadd]) >>= D12.names?,
           kv? "pre" [tpre], parseReq rest with
-    | some polS, some max, some rec, some first, some mu, some add, some preS, some q =>
-      match ck? polS max rec with
+    | some dirS, some polS, some max, some rec, some first, some mu, some add, some preS, some q =>
+      let dirOk? : Option Bool := if dirS == "ok" then some true else if dirS == "file" then some false else none
+      match dirOk?.bind (fun d => (ck? polS max rec).map (fun c => (d, c))) with
       | none => "BAD-OP"
-      | some ck =>
+      | some (dirOk, ck) =>
       let par? : Option (Option Nat) :=
         if q.mode == "seq" then some none
         else if q.mode.startsWith "par:" then (parseNat? (q.mode.drop 4).toString).map some
@@ -189,36 +235,48 @@ def handle (toks : List String) : String :=
       match par? with
       | none => "BAD-OP"
       | some par =>
-        let marker : Option Nat := match first with | some (some j) => some j | _ => none
-        let chain := chainOf q.src q.steps marker
-        let pid := pidOf env1 chain par
+        let marker : Option Nat := match first with | .crash j => some j | .crashBarrier j => some j | _ => none
+        match chainOf q.src q.steps marker with
+        | none => "BAD-OP"
+        | some chain =>
+        let pid := pidOf (envAt ns1 true []) chain par
         match pre? pid preS with
         | none => "BAD-OP"
-        | some fs0 =>
+        | some (fs0, dirs) =>
+          if !dirOk && !fs0.isEmpty then "BAD-OP"      -- a regular file has no entries
+          else
+          let env1 := envAt ns1 dirOk dirs
+          let env2 := envAt ns2 dirOk dirs
           -- the earlier run
+          let crashPhase (barrier : Bool) : Option (String × FS) :=
+            match crashPoint chain barrier with
+            | none => none
+            | some k =>
+              let fs1 := match par, enabledCfg ck with
+                | none, some cfg1 => if dirOk then crashFs env1 cfg1 fs0 chain k else fs0
+                | _, _ => fs0     -- a panic inside `exec_par` / a plain engine unwinds: nothing is written
+              -- with an unusable directory the run returns its `Err` before the armed closure is reached
+              let o := if !dirOk && (enabledCfg ck).isSome then "ERR ckpt-create-dir" else "PANIC"
+              some (o ++ " " ++ ownStr env1.isDir pid fs1 ++ " || ", fs1)
           let phase1 : Option (String × FS) :=
             match first with
-            | none => some ("", fs0)
-            | some none =>
+            | .none => some ("", fs0)
+            | .full =>
               let r := runEngine env1 ck fs0 chain par
-              some (renderOutcome q.canon r.outcome ++ " " ++ ownStr pid r.fs ++ " || ", r.fs)
-            | some (some _) =>
-              match crashIndex chain with
-              | none => none
-              | some k =>
-                let fs1 := match par, enabledCfg ck with
-                  | none, some cfg1 => crashFs env1 cfg1 fs0 chain k
-                  | _, _ => fs0     -- a panic inside `exec_par` / a plain engine unwinds: nothing is written
-                some ("PANIC " ++ ownStr pid fs1 ++ " || ", fs1)
+              some (renderOutcome q.canon r.outcome ++ " " ++ ownStr env1.isDir pid r.fs ++ " || ", r.fs)
+            | .crash _ => crashPhase false
+            | .crashBarrier _ => crashPhase true
           match phase1 with
           | none => "BAD-OP"
           | some (prefix1, fs1) =>
-            let fs2 := addForeign (mutateNewest pid mu fs1) add
+            let fs2 := addForeign (mutateNewest env2.isDir pid mu fs1) add
             let r := runEngine env2 ck fs2 chain par
-            let recS := match mu with | .flip _ _ => "*" | _ => recStr r.log
-            prefix1 ++ renderOutcome q.canon r.outcome ++ " rec=" ++ recS ++ " " ++ ownStr pid r.fs ++
+            let recS :=
+              if isSetupFailure r.outcome then "-"
+              else match mu with | .flip _ _ => "*" | _ => recStr r.log
+            prefix1 ++ renderOutcome q.canon r.outcome ++ " rec=" ++ recS ++ " " ++ ownStr env2.isDir pid r.fs ++
               " other=" ++ otherStr pid r.fs
-    | _, _, _, _, _, _, _, _ => "BAD-OP"
+    | _, _, _, _, _, _, _, _, _ => "BAD-OP"
   | _ => "BAD-OP"
 
 def handlers : List (String × (List String → String)) := [("CKPT", handle)]
